@@ -197,7 +197,9 @@ def De.ostep (d : De) (op : OR) : Option (De × Option OV) :=
 `o new` · `o wobj v|n DENY DEN CODE HEX` · `o wpay DENY nil` · `o wpay DENY DEN CODE HEX` ·
 `o wslice LP v|n|vs|ns MIN MAX FLAGS MUST DENY DEN (CODE:HEX)*` → `<Written()> <class | ->` or `panic`; `o ser` → `ok HEX` |
 `err CLASS`.  `o rnew HEX` · `o robj DEN ALLOW` · `o rpay ALLOW` · `o rslice LP v|n|vs|ns MIN MAX FLAGS MUST DEN ALLOW POST`
-→ `<value | -> <offset> <class | ->`; `o rdone` → `<offset> <class | ->`.  Lists of numbers: `1,2,3`, `-` for the empty
+→ `<value | -> <offset> <class | ->`; `o rdone` → `<offset> <class | ->`.  Chain helpers: `o h do` · `o h abortif 0|1` ·
+`o h wv v|n 0|1` → `called|skipped|given:HEX <Written()> <class | ->`; `o rh …` the same on the Deserializer →
+`called|skipped|given:HEX <offset> <class | ->`.  Lists of numbers: `1,2,3`, `-` for the empty
 list, `nil` for "no guard".  Objects print as `CODE:HEX`, a missing payload as `nil`. -/
 
 def parseNatList (s : String) : Option (List Nat) :=
@@ -239,6 +241,53 @@ def parseOR : List String → Option OR
     pure (.slice (← parseLPs lp) (← parseDenS den) { r with mustOccur := ← parseNatList must } v (← parseNatList allow) p)
   | _ => none
 
+/-! ## Chain helpers: `Do`, `AbortIf`, `WithValidation` of both chains
+
+None of them touches the buffer / the offset.  `Do(f)` calls `f` iff no error is stored; `AbortIf(p)` calls `p(nil)` iff no
+error is stored and stores what it returns; `WithValidation(mode, p)` calls `p` iff no error is stored **and** the mode has
+the validation bit — with the bytes written so far (`Serializer`) / the bytes consumed so far, `src[:offset]`
+(`Deserializer`) — and stores what it returns.  The harness's producers return the `item` error or nil. -/
+
+inductive Helper where
+  | run
+  | abortIf (fail : Bool)
+  | withValidation (validation : Bool) (fail : Bool)
+deriving Repr, DecidableEq
+
+/-- What a helper does given the stored error and the bytes a `WithValidation` producer would be handed: is the callback
+called (and with which bytes, for `WithValidation`), and the error stored afterwards. -/
+def helperStep (err : Option EK) (bytes : Bytes) : Helper → Option Bytes × Option EK
+  | .run => if err.isSome then (none, err) else (some [], err)
+  | .abortIf fail => if err.isSome then (none, err) else (some [], if fail then some .item else none)
+  | .withValidation validation fail =>
+    if err.isSome || !validation then (none, err) else (some bytes, if fail then some .item else none)
+
+def Ser.helper (s : Ser) (h : Helper) : Ser × Option Bytes :=
+  let (called, e) := helperStep s.err s.buf h
+  ({ s with err := e }, called)
+
+def De.helper (d : De) (h : Helper) : De × Option Bytes :=
+  let (called, e) := helperStep d.err (d.src.take d.off) h
+  ({ d with err := e }, called)
+
+def parseHelper : List String → Option Helper
+  | ["do"] => some .run
+  | ["abortif", "0"] => some (.abortIf false)
+  | ["abortif", "1"] => some (.abortIf true)
+  | ["wv", mode, f] => do
+    let (v, _) ← parseMode mode
+    match f with
+    | "0" => some (.withValidation v false)
+    | "1" => some (.withValidation v true)
+    | _ => none
+  | _ => none
+
+def showCalled (h : Helper) : Option Bytes → String
+  | none => "skipped"
+  | some b => match h with
+    | .withValidation _ _ => "given:" ++ hex b
+    | _ => "called"
+
 def showObj (o : Obj) : String := s!"{o.code}:{hex o.data}"
 
 def showOV : Option OV → String
@@ -255,6 +304,14 @@ def stepObj (s : PSt) : List String → PSt × String
     | some b => ({ s with de := { src := b } }, "ok")
     | none => (s, "bad-op")
   | ["rdone"] => (s, s!"{s.de.off} {showEK s.de.err}")
+  | "h" :: rest =>
+    match parseHelper rest with
+    | some h => let (s', c) := s.ser.helper h; ({ s with ser := s' }, s!"{showCalled h c} {showSer s'}")
+    | none => (s, "bad-op")
+  | "rh" :: rest =>
+    match parseHelper rest with
+    | some h => let (d, c) := s.de.helper h; ({ s with de := d }, s!"{showCalled h c} {d.off} {showEK d.err}")
+    | none => (s, "bad-op")
   | toks =>
     match parseOW toks with
     | some op =>
